@@ -89,6 +89,60 @@ def gen_program(rng, nkeys, cyclic=False, malformed=False, mustfollow=False):
     return rules
 
 
+def gen_latent_cycle(rng):
+    """directed: a cycle that exists only AFTER an input changed, and that closes through edges an earlier,
+    acyclic build already RECORDED (value, single-use or must-follow).  Y = head of a chain requests input I and,
+    when I's value is odd, the tail X; X reaches Y through a chain of recorded requests.  Build 1 (I even) records
+    the chain; then I becomes odd and Y (or a rule above it) is built: Y runs, requests X, and X's scan meets the
+    recorded dependency on the still-running Y."""
+    nin = 2 + rng.below(2)
+    rules = {k: Rule(k, 0) for k in range(1, nin + 1)}
+    chain = 2 + rng.below(3)                 # Y, (middles), X
+    ks = list(range(nin + 1, nin + 1 + chain))
+    Y, X = ks[0], ks[-1]
+    nid = [0]
+
+    def rid():
+        nid[0] += 1
+        return nid[0]
+    for k in ks:
+        r = Rule(k, 1)
+        r.sigBase = rng.below(3)
+        r.deferred = 1 if rng.chance(1, 3) else 0
+        rules[k] = r
+    a = rid()
+    rules[Y].statics.append((1, a, 0))
+    rules[Y].whens.append(((1, a, 2, 1), [(X, rid(), rng.choice([0, 0, 2]))]))
+    # X -> ... -> Y : each link requests the previous one; the link that closes on Y is mostly must-follow
+    for i in range(len(ks) - 1, 0, -1):
+        kind = rng.choice([2, 2, 0, 1]) if i == 1 else rng.choice([0, 0, 2])
+        rules[ks[i]].statics.append((ks[i - 1], rid(), kind))
+        if rng.chance(1, 2):
+            rules[ks[i]].statics.append((1 + rng.below(nin), rid(), 0))
+    top = None
+    if rng.chance(1, 3):
+        top = ks[-1] + 1
+        r = Rule(top, 1)
+        r.statics.append((Y, rid(), 0))
+        rules[top] = r
+    even, odd = 100 + 2 * rng.below(20), 201 + 2 * rng.below(20)
+    ops = [{"op": "M", "slot": k, "val": 50 + k} for k in range(2, nin + 1)]
+    ops.append({"op": "M", "slot": 1, "val": even})
+
+    def build(t):
+        items = [(0, [rng.choice(ks) for _ in range(rng.below(3))]) for _ in range(rng.below(8))]
+        return {"op": "B", "key": t, "cancel_at": 0, "mode": 0, "items": items}
+    ops.append(build(rng.choice([X, X, top or X])))
+    if rng.chance(1, 3):
+        ops.append({"op": "E"})
+    ops.append({"op": "M", "slot": 1, "val": odd})
+    ops.append(build(rng.choice([Y, Y, top or Y])))
+    if rng.chance(1, 2):
+        ops.append({"op": "M", "slot": 1, "val": even + 2})
+        ops.append(build(rng.choice([X, Y])))
+    return Case(rules, ops)
+
+
 # ----------------------------------------------------------------------------------------------
 # python re-implementation of the DSL (independent oracle for clean values / cycles)
 # ----------------------------------------------------------------------------------------------
